@@ -56,6 +56,20 @@ def config_class(t, optional):
     return _CLASSES[key]
 
 
+_NDEF = [0]
+
+
+def default_class(t, optional, default):
+    """A fresh class whose parameter `v` has `default` as its default value."""
+    from typing import Optional
+    from experimaestro import Config, Param
+    T = py_type(t)
+    _NDEF[0] += 1
+    ann = {"v": Param[Optional[T]] if optional else Param[T], "w": Param[int]}
+    ns = {"__annotations__": ann, "__module__": "universe.g", "__qualname__": f"DynD{_NDEF[0]}", "w": 0, "v": default}
+    return type(f"DynD{_NDEF[0]}", (Config,), ns)
+
+
 def good(t):
     from pathlib import Path
     import universe.g as U
@@ -165,7 +179,9 @@ def eval_types(item):
             out["bad"].append({"kind": "class-definition-raises", "type": tname(t), "error": f"{type(e).__name__}: {e}"[:300]})
             continue
         for label, val, exp in cands:
-            for route in ("assign", "init"):
+            for route in ("assign", "init", "default"):
+                if route == "default" and (val is None or label == "conforming" and t == ("cfg",) and False):
+                    continue
                 out["n"] += 1
                 before = "<unset>"
                 try:
@@ -173,6 +189,9 @@ def eval_types(item):
                         o = cls()
                         before = o.__xpm__.values.get("v", "<unset>")
                         o.v = val
+                    elif route == "default":
+                        # the value is the *default* of the parameter: an object built without it must hold a value of the type
+                        o = default_class(t, optional, copy.deepcopy(val) if not _has_config(val) else val)()
                     else:
                         o = cls(v=val)
                     accepted = True
@@ -199,6 +218,17 @@ def eval_types(item):
                         if now is not before and now != before:
                             out["bad"].append(dict(case, kind="rejected-but-changed", stored=repr(now)[:120]))
     return out
+
+
+def _has_config(v):
+    from experimaestro.core.objects import Config
+    if isinstance(v, Config):
+        return True
+    if isinstance(v, (list, tuple)):
+        return any(_has_config(x) for x in v)
+    if isinstance(v, dict):
+        return any(_has_config(x) for x in v.values())
+    return False
 
 
 def tuple_of(t):
